@@ -42,7 +42,7 @@ REG = {
         "modules": ["VProofs.Props.C15", "VProofs.Props.Pandas", "VProofs.Props.Numpy"],
         "theorems": thms("C15", ["C15_detect", "C15_infer"]) + ["V.Pd.pandas_WF", "V.Pd.outputs_good", "V.Pd.goodB_sound", "V.PandasProps.succ_restrict_perm", "V.PandasProps.C15_pandas",
                                                                 "V.Np.numpy_WF", "V.NumpyProps.C15_numpy"],
-        "runners": ["pandas", "list", "numpy", "algebra"],
+        "runners": ["pandas", "list", "numpy", "algebra", "api"],
         "relevant": ["contains", "guard", "infer-path", "infer-outcome", "detect-path", "relation-missing"],
     },
     "C16": {
@@ -67,9 +67,11 @@ REG = {
         "runners": ["engine", "frame", "api"],
     },
     "C06": {
-        "modules": ["VProofs.Props.C06"],
+        "modules": ["VProofs.Props.C06", "VProofs.Props.NumpyMore"],
         "theorems": thms("C06", ["C06_shape", "C06_lossless_float_integer", "C06_lossless_complex_float",
-                                 "C06_lossless_datetime_date", "oks_length", "C06_shape_infer", "C06_nulls_step"]) + ["V.Pd.nulls_pandas"],
+                                 "C06_lossless_datetime_date", "oks_length", "C06_shape_infer", "C06_nulls_step"]) + ["V.Pd.nulls_pandas",
+                    "V.NumpyProps.C06_shape_numpy", "V.NumpyProps.C06_witness_F42", "V.NumpyProps.C06_lossless_float_integer_numpy",
+                    "V.NumpyProps.C06_lossless_complex_float_numpy"],
         "runners": ["pandas", "frame", "family", "numpy", "list", "api"],
         "relevant": ["xform", "infer-data", "guard", "relation-missing"],
     },
@@ -83,11 +85,12 @@ REG = {
         "partial": "string encodings rest on the element parsers (data of the model); the full grid of families x encodings x null patterns is explored by the family runner on the real code",
     },
     "C09": {
-        "modules": ["VProofs.Props.C09"],
+        "modules": ["VProofs.Props.C09", "VProofs.Props.NumpyMore"],
         "theorems": thms("C09", ["C09_total", "C09_contains_total_pandas", "C09_generic_catch_all",
                                  "C09_detect_total_pandas", "C09_total_guards", "C09_total_xforms", "C09_witness_F29",
                                  "C09_infer_total_pandas", "C09_hypotheses_executable"])
-                    + ["V.Pd.infer_total", "V.Pd.guardsOk_of_outCol", "V.Pd.outputs_good", "V.traverse_total_inv"],
+                    + ["V.Pd.infer_total", "V.Pd.guardsOk_of_outCol", "V.Pd.outputs_good", "V.traverse_total_inv",
+                       "V.NumpyProps.C09_contains_total_numpy", "V.NumpyProps.C09_generic_numpy", "V.NumpyProps.C09_guards_total_numpy"],
         "runners": ["pandas", "numpy", "list", "exotic", "api"],
         "relevant": ["contains", "guard", "xform-outcome", "infer-outcome", "detect-outcome", "relation-missing"],
     },
@@ -99,10 +102,11 @@ REG = {
         "partial": "the model cannot exhibit global state it does not name, nor hash-seed / process dependence: observed by the History runner",
     },
     "C11": {
-        "modules": ["VProofs.Props.C11", "VProofs.Props.PyList"],
+        "modules": ["VProofs.Props.C11", "VProofs.Props.PyList", "VProofs.Props.NumpyMore"],
         "theorems": thms("C11", ["C11_sim", "C11_membership_pandas", "C11_repeat_pandas", "C11_detect_pandas",
                                  "C11_detect_repeat_pandas", "C11_infer_pandas"])
-                    + ["V.Pd.guard_accBag", "V.Pd.xform_equiBag", "V.Pd.infer_bag", "V.PyProps.C11_membership_list", "V.PyProps.C11_detect_list"],
+                    + ["V.Pd.guard_accBag", "V.Pd.xform_equiBag", "V.Pd.infer_bag", "V.PyProps.C11_membership_list", "V.PyProps.C11_detect_list",
+                       "V.NumpyProps.isString_iff", "V.NumpyProps.C11_membership_numpy"],
         "runners": ["bag", "pandas", "numpy", "list"],
         "relevant": ["contains", "detect", "guard", "infer-path"],
         "partial": "k-fold repetition is proved for membership and detect_type only (infer_type under repetition, and the numpy / list back ends, are explored by the bag and sequence runners); DtBag (pd.to_datetime parses element by element) is a hypothesis",
